@@ -107,18 +107,29 @@ func c04Open(cfg c04Cfg) *c04World {
 
 func (w *c04World) close() { w.sqlDB.Close() }
 
-// reset empties the table (not recorded)
+// reset empties the table (not recorded). A previous run that left the database unusable (a lock held by a statement that
+// escaped its transaction, …) must not take the whole check down: the world is replaced by a fresh one.
 func (w *c04World) reset(initial []int64) {
+	if err := w.tryReset(initial); err != nil {
+		w.sqlDB.Close()
+		*w = *c04Open(w.cfg)
+		if err := w.tryReset(initial); err != nil {
+			panic(err)
+		}
+	}
+}
+
+func (w *c04World) tryReset(initial []int64) error {
 	w.rec.mu.Lock()
 	w.rec.Off = true
 	w.rec.Fault = nil
 	w.rec.mu.Unlock()
 	if _, err := w.sqlDB.Exec("DELETE FROM tx_items"); err != nil {
-		panic(err)
+		return err
 	}
 	for _, id := range initial {
 		if _, err := w.sqlDB.Exec("INSERT INTO tx_items (id, v) VALUES (?, 0)", id); err != nil {
-			panic(err)
+			return err
 		}
 	}
 	w.rec.mu.Lock()
@@ -126,6 +137,7 @@ func (w *c04World) reset(initial []int64) {
 	w.rec.Events = nil
 	w.rec.mu.Unlock()
 	w.tags.resetCount()
+	return nil
 }
 
 func (w *c04World) dump() []int64 {
